@@ -34,7 +34,7 @@ def frac(x):
 
 
 def gen_weights(rng, n):
-    kind = rng.choice(["dyadic", "int", "degenerate", "zeros", "uniform", "near"])
+    kind = rng.choice(["dyadic", "int", "degenerate", "zeros", "uniform", "near", "deadtail"])
     if kind == "dyadic":
         ws = [2 ** rng.randint(0, 3) for _ in range(n)]
     elif kind == "int":
@@ -46,6 +46,10 @@ def gen_weights(rng, n):
         ws = [rng.choice([0, 0, 1, 3]) for _ in range(n)]
         if sum(ws) == 0:
             ws[rng.randrange(n)] = 2
+    elif kind == "deadtail":
+        # equal weights followed by dead (zero-weight) particles: the float32 cumulative sum often ends below 1
+        j = rng.randint(0, min(2, n - 1))
+        ws = [1] * (n - j) + [0] * j
     elif kind == "uniform":
         ws = [3] * n
     else:
@@ -68,12 +72,23 @@ def main():
         T = sum(ws)
         b = rng.choice([64, 128, 97, 1000])
         a = rng.randint(1, b - 1)
-        # skip exact ties between a position and a cumulative weight (float rounding decides them)
+        extreme = rng.random() < 0.2
+        if extreme:
+            # offsets at the ends of (0,1): the largest / smallest float32 values inside the interval and near them
+            b = 2 ** 24
+            a = rng.choice([b - 1, b - 1, b - 2, b - 16, 1, 2])
+            if rng.random() < 0.5:
+                kind, ws = kind + "+uniform-dead-tail", [1] * rng.choice([3, 6, 7]) + [0] * rng.randint(0, 2)
+                n = len(ws)
+                m = n
+                T = sum(ws)
+        # skip exact ties between a position and a cumulative weight (float rounding decides them); the total
+        # weight is not such a tie: every position lies strictly below it, whatever the rounding
         cs, acc, tie = [], 0, False
         for w in ws:
             acc += w
             cs.append(acc)
-        margin = min(abs((j * b + a) * T - c * m * b) for j in range(m) for c in cs) / (m * b * T)
+        margin = min([abs((j * b + a) * T - c * m * b) for j in range(m) for c in cs if c != T] + [m * b * T]) / (m * b * T)
         if margin < 2e-6:
             continue
         lw = jnp.log(jnp.asarray(ws, dtype=jnp.float32)) + rng.choice([0.0, 3.0, -7.5])
@@ -109,7 +124,10 @@ def main():
             acc_ += w_
             cs_.append(acc_)
         if method == "systematic":
-            margin = min(abs((j * b + a) * T - cc * n * b) for j in range(n) for cc in cs_) / (n * b * T)
+            if rng.random() < 0.25:
+                b = 2 ** 24
+                a = rng.choice([b - 1, b - 1, b - 2, 1])
+            margin = min([abs((j * b + a) * T - cc * n * b) for j in range(n) for cc in cs_ if cc != T] + [n * b * T]) / (n * b * T)
             if margin < 2e-6:
                 continue
             smc.uniform = types.SimpleNamespace(sample=lambda lo, hi, a=a, b=b: jnp.float32(lo) + jnp.float32(a / b) * (jnp.float32(hi) - jnp.float32(lo)))
